@@ -413,6 +413,7 @@ class Engine:
                         z3.Or([ref >= a0] + [ref == r for r in refs]), "frame")
         ts = self.reg.tree_struct
         if ts is not None and what in ts.protected_kinds:
+            ts.base_axioms(self, st)
             self.oblige(f"{self.qual}.treestruct.{what}@L{self.cur_line}", st,
                         z3.Not(ts.pred(ref)), "frame")
 
